@@ -1,4 +1,5 @@
 import Ktm.Transforms
+import Ktm.Continuous
 /-! # C14 — value/probability transforms stay in the domain and invert each other
 
 Model (exact arithmetic, `Ktm/Transforms.lean`): a probability in `[0,1)` is `num/den` with
@@ -62,5 +63,25 @@ theorem boolean_value_prob_value (b : Bool) : boolOfProb (if b then 3 else 1) 4 
 gives the last one; `Float(0.001, 10, step=10, log)`: five values -/
 example : values 0 10 2 = [0, 2, 4, 6, 8, 10] ∧ probToValueLin 0 10 2 9007199254740991 9007199254740992 = 10 ∧
     nLog 1 10000 10 1 100 = 5 := by decide
+
+/-- **continuous kinds, value → probability → value and back** (real arithmetic, `min < max`): the maps the code uses
+for `Float` without a step are inverse to each other under linear, log and reverse_log sampling -/
+theorem continuous_round_trips (lo hi : ℝ) (hlt : lo < hi) :
+    (∀ p, Continuous.probLinear lo hi (Continuous.sampleLinear lo hi p) = p) ∧
+    (∀ v, Continuous.sampleLinear lo hi (Continuous.probLinear lo hi v) = v) ∧
+    (0 < lo → ∀ p, Continuous.probLog lo hi (Continuous.sampleLog lo hi p) = p) ∧
+    (0 < lo → ∀ v, 0 < v → Continuous.sampleLog lo hi (Continuous.probLog lo hi v) = v) ∧
+    (0 < lo → ∀ p, Continuous.probRevLog lo hi (Continuous.sampleRevLog lo hi p) = p) :=
+  ⟨fun _ => Continuous.linear_prob_of_sample hlt, fun _ => Continuous.linear_sample_of_prob hlt,
+   fun hlo _ => Continuous.log_prob_of_sample hlo hlt, fun hlo _ hv => Continuous.log_sample_of_prob hlo hlt hv,
+   fun hlo _ => Continuous.revlog_prob_of_sample hlo hlt⟩
+
+/-- every probability in `[0, 1]` lands in `[min, max]` for the continuous kinds -/
+theorem continuous_in_domain (lo hi p : ℝ) (hle : lo ≤ hi) (h0 : 0 ≤ p) (h1 : p ≤ 1) :
+    (lo ≤ Continuous.sampleLinear lo hi p ∧ Continuous.sampleLinear lo hi p ≤ hi) ∧
+    (0 < lo → lo ≤ Continuous.sampleLog lo hi p ∧ Continuous.sampleLog lo hi p ≤ hi) ∧
+    (0 < lo → lo ≤ Continuous.sampleRevLog lo hi p ∧ Continuous.sampleRevLog lo hi p ≤ hi) :=
+  ⟨Continuous.linear_in_range hle h0 h1, fun hlo => Continuous.log_in_range hlo hle h0 h1,
+   fun hlo => Continuous.revlog_in_range hlo hle h0 h1⟩
 
 end Props.C14
